@@ -1,7 +1,7 @@
 #!/bin/sh
 # usage: bin/mutate.sh <patch.diff> <Cxx> [tier]  — apply a patch to /repo, run the check, undo the patch.
 # Prints the check's verdict lines; exit 0 if the check flagged the change (VIOLATION), 1 if it did not.
-P="$1"; ID="$2"; TIER="${3:-quick}"
+P="$(realpath "$1")"; ID="$2"; TIER="${3:-quick}"
 DIR="$(cd "$(dirname "$0")/.." && pwd)"
 if ! git -C /repo apply "$P" 2>/dev/null; then
   git -C /repo apply --3way "$P" >/dev/null 2>&1 || { git -C /repo reset -q --hard HEAD; echo "patch does not apply"; exit 2; }
